@@ -25,6 +25,9 @@ pub fn body_alphabet(full: bool) -> Vec<ValD> {
             m(vec![Obs::F(f64::NAN)], vec![]),
             m(vec![Obs::U(1)], vec![(s("k"), s("v")), (s("k"), s("w"))]),
             m(vec![], vec![]),
+            // skipped metrics that still open a dimension set
+            m(vec![Obs::F(f64::NAN)], vec![(s("k"), s("v"))]),
+            m(vec![], vec![(s("k"), s("z"))]),
             m(vec![Obs::U(2), Obs::F(0.5)], vec![(s("j"), s("x"))]),
             ValD::Error(s("value error")),
             ValD::Nothing,
